@@ -168,8 +168,8 @@ def _same_resolution(text, period):
 def catalogue(max_len, min_len=0, *, pandas=True):
     """All span descriptors of the catalogue with lengths min_len..max_len."""
     out = []
-    str_labels = ['a', 'b', 'x1', 'Q', 'zed', '', 'B']
-    mixed = ['a', 7, 2.5, {'t': [1, 2]}, -1, 'b', 0]
+    str_labels = ['a', '', 'x1', 'Q', 'zed', 'b', 'B']
+    mixed = ['a', 0, 2.5, {'t': [1, 2]}, -1, 'b', 7]
     for n in range(min_len, max_len + 1):
         out.append({'k': 'range', 'start': 3, 'n': n, 'step': 1})
         out.append({'k': 'range', 'start': -2, 'n': n, 'step': 1})
